@@ -380,7 +380,7 @@ def run_case(case, R, extra_check=None):
         combos = [("int", "int"), ("int", "float"), ("float", "complex"), ("complex", "int")]
         for (ka, kb) in combos:
             for rot, stride in ((0, 1), (2, 1), (1, 2)):
-                for va, vb in (("canon", "canon"), ("T", "slice"), ("unusedname", "zeroterm")):
+                for va, vb in (("canon", "canon"), ("T", "slice"), ("unusedname", "zeroterm"), ("rev", "readonly")):
                     a = P(arr(sa, ka, rot, stride, variant=va))
                     b = P(arr(sb, kb, rot + 1, stride, names=("q1", "q2"), variant=vb))
                     for op in BINOPS:
@@ -404,7 +404,7 @@ def run_case(case, R, extra_check=None):
         shape = tuple(case["s"])
         R.state(("unary", shape))
         for pk in ("int", "float", "complex"):
-            for var in ("canon", "T", "zeroterm"):
+            for var in ("canon", "T", "zeroterm", "rev", "readonly"):
                 p = P(arr(shape, pk, 2, variant=var))
                 for op in ("neg", "pos", "np.negative", "np.positive", "np.square", "nl.negative", "nl.positive",
                            "nl.square"):
